@@ -75,8 +75,22 @@ def check_funcfl(rep, case, name):
 def check_excel(rep, case, name):
     model = case['model']; eams, pots, fns, pf = build_eam(model)
     nr, nrho = model['nr'], model['nrho']
-    if case['route'] == 'excel_pair': wb = Excel_PairTabulation(pots, model['cutoff'], nr).workbook
-    else: wb = Excel_EAMTabulation(pots, eams, model['cutoff'], nr, model['cutoff_rho'], nrho).workbook
+    if case.get('after_failure') and pots:
+        # history: the first attempt to build the workbook fails half way (one evaluation raises, once); the caller retries on the SAME object --
+        # the workbook it then gets must be the complete one of the model
+        from atsim.potentials import Potential
+        class Once(object):
+            def __init__(self, f, k): self.f, self.k, self.n = f, k, 0
+            def __call__(self, r):
+                self.n += 1
+                if self.n == self.k: raise RuntimeError('transient failure')
+                return self.f(r)
+        p0 = pots[0]; pots = [Potential(p0.speciesA, p0.speciesB, Once(p0.potentialFunction, max(2, nr // 2)))] + list(pots[1:])
+    tab = Excel_PairTabulation(pots, model['cutoff'], nr) if case['route'] == 'excel_pair' else Excel_EAMTabulation(pots, eams, model['cutoff'], nr, model['cutoff_rho'], nrho)
+    if case.get('after_failure') and pots:
+        try: tab.workbook
+        except RuntimeError: pass
+    wb = tab.workbook
     def sheet(nm):
         rows = list(wb[nm].iter_rows(values_only=True)); return rows[0], rows[1:]
     head, rows = sheet('Pair')
@@ -133,6 +147,12 @@ if __name__ == '__main__':
     if pl.get('mode') == 'replay': rep.case('replay', pl['input']); check_case(rep, pl['input'], 'replay')
     else:
         rng = random.Random(pl.get('seed', 0))
+        # the spreadsheet targets after a failed first attempt (retry on the same object), each route twice per run
+        r2 = random.Random(7 + pl.get('seed', 0))
+        for j, route in enumerate(['excel_pair', 'excel_eam', 'excel_pair', 'excel_eam']):
+            m = mk_eam_model(r2)
+            if not m['pairs']: m['pairs'] = [dict(A=m['elements'][0]['species'], B=m['elements'][0]['species'], fn=rand_callable_spec(r2))]
+            c = dict(route=route, model=m, after_failure=True); rep.case(route + '/after-failure', c); check_case(rep, c, 'after-failure-%d' % j)
         for i in range(pl.get('n', 60)):
             c = gen_case(rng); rep.case(c['route'], c); check_case(rep, c, 'seeded-%d' % i)
     rep.finish()
